@@ -16,6 +16,10 @@ Streams
              invariance checked directly on the code.
   arc      : `arclen_2d_bounded` vs exact angle-interval arithmetic, `area_3d_bounded` vs
              numerical quadrature (supporting evidence for 3-D).
+  arcfn    : `circle_cap_arclen`, `circle_corner_arclen`, `arclen_2d_bounded` in function mode vs the
+             Lean model Model/Arc.lean executed at Float (`ARCCAP/ARCCORNER/ARC2D`, 1e-12) and vs
+             angle-interval arithmetic (1e-6); the model at the reals is what Props/C19Arc proves
+             to be the arc length inside the box.
 Direct oracles (independent of the Lean model): union-find on the exact strict adjacency, brute
 force nearest neighbour, brute-force g(r), interval arithmetic / quadrature.
 """
@@ -34,7 +38,10 @@ RULE = ("cluster/boundary streams: 1-4 frames x 1-30 points on a k/8 grid sized 
         "non-trivial = some frame has a cluster of >= 3 rows and >= 2 clusters.  prox: 1-30 points, "
         "non-trivial = >= 3 rows.  pcorr: 4-40 points in a box, dyadic cutoff/dr, non-trivial = "
         ">= 1 edge-corrected pair and >= 2 non-empty bins.  arc: random (pos, r, box) incl. centres "
-        "on edges/corners and r larger than the box, non-trivial = >= 1 side cut.  distinct = "
+        "on edges/corners and r larger than the box, non-trivial = >= 1 side cut.  arcfn: 1-6 "
+        "(centre, r) per box, grid / generic doubles / radii on and one ulp around the mask "
+        "thresholds (h = r, h1^2+h2^2 = r^2), r up to 2x the box and down to 1e-6 of it, "
+        "non-trivial = >= 1 side cut.  distinct = "
         "distinct canonical input.")
 ASSUMPTIONS = [
     "coordinates and separations are k/8: every rescaled squared distance is an exact rational "
@@ -48,6 +55,10 @@ ASSUMPTIONS = [
     "arclen/area values (float) are plugged in as the abstract `arc`; sums compared at 1e-9 rel.",
     "3-D edge correction is compared with numerical quadrature only (tolerance 1e-4): supporting "
     "evidence, not covered by a theorem",
+    "2-D edge correction: the Lean definitions proved exact over the reals are executed at IEEE "
+    "double (libm acos/asin) and compared with numpy's evaluation at 1e-12 of the full circle "
+    "(caps: 1e-12 relative); the NaN guard is compared except within 1e-12 of its threshold "
+    "(counted as arcfn_guard_borderline); rounding error itself is not modelled",
 ]
 MIN_NONTRIVIAL = 20
 
